@@ -29,6 +29,9 @@ type c20Op struct {
 	Name   string    `json:"name,omitempty"` // transform
 	Cues   []cueSpec `json:"cues,omitempty"`
 	Arg    int64     `json:"arg,omitempty"`
+	// write to a destination that fails at byte FailAt-1 (FailAt > 0), in one of the three ways a writer can fail (C18)
+	FailAt   int `json:"fail_at,omitempty"`
+	FailMode int `json:"fail_mode,omitempty"`
 }
 
 type c20Case struct {
@@ -39,6 +42,9 @@ type c20Case struct {
 	// Cold: run in a process of its own in which the concurrent calls are the very first calls into the package
 	// (whatever the package initialises lazily is then initialised under contention)
 	Cold bool `json:"cold,omitempty"`
+	// History (with Cold): no concurrency at all; the fresh process makes the calls one after the other, forwards then
+	// backwards: a call's result may not depend on which calls the process made before
+	History bool `json:"history,omitempty"`
 }
 
 func init() { register("c20", checkC20) }
@@ -57,6 +63,11 @@ func (o c20Op) run() (res string) {
 		s := o.Spec.build()
 		var buf bytes.Buffer
 		var err error
+		if o.FailAt > 0 {
+			fw := &faultWriter{k: o.FailAt - 1, mode: o.FailMode}
+			err = writeFormat(o.Format, s, fw)
+			return fmt.Sprintf("%v|%s|%s", err != nil, hashOf(fw.buf.Bytes()), hashOf([]byte(canon(s))))
+		}
 		if strings.HasPrefix(o.Format, "ttml-indent:") {
 			// a per-call option: must not leak into any other call
 			err = s.WriteToTTML(&buf, astisub.WriteToTTMLWithIndentOption(strings.TrimPrefix(o.Format, "ttml-indent:")))
@@ -175,6 +186,19 @@ func checkC20(c c20Case) string {
 	restore := astisub.Now
 	astisub.Now = func() time.Time { return c19NowA }
 	defer func() { astisub.Now = restore }()
+	if c.Cold && c.History {
+		first := make([]string, len(c.Ops))
+		for i, o := range c.Ops {
+			first[i] = o.run()
+		}
+		for i := len(c.Ops) - 1; i >= 0; i-- {
+			if again := c.Ops[i].run(); again != first[i] {
+				return fmt.Sprintf("operation %d (%s %s%s) of a fresh process returned a different result once other calls had been made: state is kept between calls\n--- as call number %d of the process ---\n%s\n--- later ---\n%s",
+					i, c.Ops[i].Kind, c.Ops[i].Format, c.Ops[i].Name, i+1, clip(first[i], 500), clip(again, 500))
+			}
+		}
+		return ""
+	}
 	want := make([]string, len(c.Ops))
 	if c.Cold {
 		// the concurrent phase comes first; the sequential reference is taken afterwards
@@ -260,8 +284,13 @@ func genC20Op(t *rapid.T) c20Op {
 		}
 		return o
 	case 1:
-		g := genGL(t, false)
-		return c20Op{Kind: "write", Format: rapid.SampledFrom(writerFormats).Draw(t, "writer"), Spec: &g}
+		g := genGLRaw(t)
+		o := c20Op{Kind: "write", Format: rapid.SampledFrom(writerFormats).Draw(t, "writer"), Spec: &g}
+		if rapid.IntRange(0, 3).Draw(t, "failingdest") == 0 {
+			// the destination of this call fails: no other call may notice
+			o.FailAt, o.FailMode = rapid.IntRange(1, 400).Draw(t, "failat"), rapid.IntRange(0, 2).Draw(t, "failmode")
+		}
+		return o
 	default:
 		name := rapid.SampledFrom(c20Transforms).Draw(t, "name")
 		for extra := rapid.IntRange(0, 2).Draw(t, "extra"); extra > 0; extra-- {
@@ -314,7 +343,7 @@ func TestC20(t *testing.T) {
 	})
 	// cold start: each case in a fresh process whose first calls into the package are the concurrent ones
 	rapidCheck(t, "C20/cold-start", tier(6, 200), func(rt *rapid.T) {
-		c := c20Case{Goroutines: rapid.IntRange(4, 16).Draw(rt, "goroutines"), Rounds: 1, Cold: true}
+		c := c20Case{Goroutines: rapid.IntRange(4, 16).Draw(rt, "goroutines"), Rounds: 1, Cold: true, History: rapid.Bool().Draw(rt, "history")}
 		var pool []c20Op
 		for i := rapid.IntRange(2, 4).Draw(rt, "distinct"); i > 0; i-- {
 			pool = append(pool, genC20Op(rt))
@@ -322,11 +351,18 @@ func TestC20(t *testing.T) {
 		// the writers with lazily built tables are always part of it
 		g := genGL(rt, false)
 		pool = append(pool, c20Op{Kind: "write", Format: "stl", Spec: &g}, c20Op{Kind: "write", Format: "ttml", Spec: &g})
+		// a language code the library has no name for, met by a reader and handed to a writer
+		code := rapid.SampledFrom([]string{"de", "xx", "it"}).Draw(rt, "langcode")
+		gl := genGL(rt, false)
+		gl.Meta.Lang, gl.Meta.Nil = code, false
+		td := genTTMLDoc(rt, false)
+		td.Lang = code
+		pool = append(pool, c20Op{Kind: "read", Format: "ttml", Doc: renderTTML(td, ttmlRendering{StylePfx: "tts", XMLID: true, EOL: "\n"})}, c20Op{Kind: "write", Format: "ttml", Spec: &gl})
 		for i := rapid.IntRange(8, 32).Draw(rt, "nops"); i > 0; i-- {
 			c.Ops = append(c.Ops, pool[rapid.IntRange(0, len(pool)-1).Draw(rt, "pick")])
 		}
 		c.Release = genPerm(rt, c.Goroutines, "release")
-		ev.Case(true, fmt.Sprintf("%v", c), "cold-start")
+		ev.Case(true, fmt.Sprintf("%v", c), "cold-start", map[bool]string{true: "cold-start-history", false: "cold-start-concurrent"}[c.History])
 		verdict(rt, "C20", "c20", c, checkC20)
 	})
 }
